@@ -760,7 +760,8 @@ def kf_forced_output_not_recognised(witness, res):
     """a prerequisite added by the reload on an output that was completed by `cylc set --out` (recorded in the
     task_outputs table as "(manually completed)") stays unsatisfied: scenario `forced`, output w:xx"""
     pre = witness.get('prerequisite') or []
-    return (witness.get('workflow') == 'forced' and list(pre[1:]) == ['w', 'xx']
+    # (the thorough tier runs the same scenario as forced1, forced2 ...)
+    return (str(witness.get('workflow', '')).startswith('forced') and list(pre[1:]) == ['w', 'xx']
             and witness.get('recorded') == 'database' and witness.get('after') is False)
 
 
